@@ -243,6 +243,16 @@ pub fn prove(cx: &mut Ctx, op: &Value, it: &mut Interner) -> Value {
             bits = vec![0; 20];
             bits[k as usize] = 1;
         }
+        // boundary values among the path elements (a sibling may be any field element: 0, 1, p-1)
+        if let Some(a) = pv.get("all").and_then(|x| x.as_str()) {
+            let v = match a { "zero" => Fr::from(0u64), "one" => Fr::from(1u64), _ => Fr::from(0u64) - Fr::from(1u64) };
+            path = vec![v; 20];
+        }
+        if let Some(zs) = pv.get("zero_at").and_then(|x| x.as_array()) {
+            for z in zs {
+                path[z.as_u64().unwrap() as usize] = Fr::from(0u64);
+            }
+        }
     }
     ev["path"] = json!(path.iter().map(|v| it.id(v)).collect::<Vec<_>>());
     ev["bits"] = json!(bits);
